@@ -354,4 +354,258 @@ theorem R_recordBatch (crc : Bytes → Nat) (hcrc : ∀ x, crc x < 4294967296) (
   have hTL := tailBytes_length crc pb pid ep (attrsOf tx) h.inv
   simp [run2, eBase, eLen, hTL, eTail]
 
+/-! ### partition, topic, request (Produce v3+, no compressor) -/
+
+theorem R_zeroTag (rest : Bytes) : R Spec.C18.uvar [0#8] rest 0 := by
+  have h0 : encU 0 = [0#8] := by rw [Proof.C17.encU_lt (by omega)]; rfl
+  have := R_uvar 0 rest (by rw [Proof.C17.lenU_lt (by omega)]; omega)
+  rwa [h0] at this
+
+theorem R_emptyTags_flex (rest : Bytes) : R (Spec.C18.emptyTags true) [0#8] rest () := by
+  intro log
+  have e := fun r l => run_of_R (R_zeroTag r) l
+  simp only [List.singleton_append] at e
+  simp [run2, Spec.C18.emptyTags, e]
+  rfl
+
+theorem R_emptyTags_nonflex (rest : Bytes) : R (Spec.C18.emptyTags false) [] rest () := by
+  intro log; simp [run2, Spec.C18.emptyTags]; rfl
+
+/-- the model's environment without compressor -/
+def env0 (crc crc32 : Bytes → Nat) : Model.C18.Env := { crc32c := crc, crc32 := crc32, comp := none }
+
+theorem batchAppendTo_eq (crc : Bytes → Nat) (pb : Model.C18.PartBatch) (v pid ep : Int) (tx : Bool)
+    (h : Proof.C18.BatchInv pb.batch) :
+    Model.C18.batchAppendTo crc none pb v pid ep tx =
+      (if v ≥ 9 then Model.C18.uvarint (Model.C18.uvar32 (Model.C18.batchLength pb.batch))
+       else Model.C18.beI 4 (pb.batch.wireLength - 4)) ++ Model.C18.batchBody crc none pb v pid ep tx := by
+  have hb := Proof.C18.batchBody_length crc none pb v pid ep tx h
+  simp only [Proof.C18.savingsOf_none, Int.natCast_zero, Int.sub_zero] at hb
+  unfold Model.C18.batchAppendTo
+  simp only [hb, if_true, Proof.C18.savingsOf_none, Int.natCast_zero, Int.sub_zero]
+  by_cases h9 : v ≥ 9 <;> simp [h9]
+
+set_option maxRecDepth 4000 in
+theorem R_partition (crc crc32 : Bytes → Nat) (hcrc : ∀ x, crc x < 4294967296) (pb : Model.C18.PartBatch) (v pid ep : Int) (tx : Bool)
+    (rest : Bytes) (hv : 3 ≤ v) (hp : I32 pb.partition) (h : BatchWF pb.batch pid ep (if pid < 0 then 0 else pb.seq)) :
+    R (Spec.C18.partitionP crc crc32 false v) (Model.C18.partAppendTo (env0 crc crc32) v pid ep tx pb) rest
+      (dBatch pb pid ep tx (Model.C18.batchBody crc none pb v pid ep tx).length) := by
+  intro log
+  have hb := Proof.C18.batchBody_length crc none pb v pid ep tx h.inv
+  simp only [Proof.C18.savingsOf_none, Int.natCast_zero, Int.sub_zero, Model.C18.batchLength] at hb
+  have hw := h.inv.wire
+  simp only [Model.C18.recordBatchOverhead] at hw
+  have hlt : ¬ v < 3 := by omega
+  have ePart := fun r l => run_of_R (R_i32 pb.partition r hp) l
+  have eBody := fun r l => run_of_R (R_takeN (Model.C18.batchBody crc none pb v pid ep tx) r _ rfl) l
+  have eBatch := fun st l => run_of_R (R_recordBatch crc hcrc pb v pid ep tx st h) l
+  simp only [List.nil_append] at eBatch
+  unfold Model.C18.partAppendTo
+  simp only [env0, hlt, if_false, batchAppendTo_eq crc pb v pid ep tx h.inv]
+  by_cases h9 : v ≥ 9
+  · have eTag := fun r l => run_of_R (R_emptyTags_flex r) l
+    simp only [List.singleton_append] at eTag
+    have hu : Model.C18.uvar32 (Model.C18.batchLength pb.batch) = 1 + (Model.C18.batchBody crc none pb v pid ep tx).length := by
+      simp only [Model.C18.uvar32, Model.C18.batchLength]; omega
+    have eU := fun r l => run_of_R (R_uvar (1 + (Model.C18.batchBody crc none pb v pid ep tx).length) r (by
+      have := h.wl
+      exact Nat.le_trans (Proof.C17.lenU_le 5 _ (by omega) (by omega)) (by omega))) l
+    simp [run2, Spec.C18.partitionP, Spec.C18.recordsBlobP, h9, hlt, hu, Model.C18.uvarint, ePart, eU, eBody, eTag, eBatch]
+  · have eTag := fun r l => run_of_R (R_emptyTags_nonflex r) l
+    simp only [List.nil_append] at eTag
+    have eL := fun r l => run_of_R (R_i32 (pb.batch.wireLength - 4) r (by have := h.wl; unfold I32; omega)) l
+    have hl0 : ¬ (pb.batch.wireLength - 4 < 0) := by omega
+    have hl1 : (pb.batch.wireLength - 4).toNat = (Model.C18.batchBody crc none pb v pid ep tx).length := by omega
+    simp [run2, Spec.C18.partitionP, Spec.C18.recordsBlobP, h9, hlt, ePart, eL, hl0, hl1, eBody, eTag, eBatch]
+
+def dParts (crc : Bytes → Nat) (v pid ep : Int) (tx : Bool) (ps : List Model.C18.PartBatch) : List Spec.C18.DBatch :=
+  ps.map fun pb => dBatch pb pid ep tx (Model.C18.batchBody crc none pb v pid ep tx).length
+
+def PartsWF (pid ep : Int) : List Model.C18.PartBatch → Prop
+  | [] => True
+  | pb :: ps => (I32 pb.partition ∧ BatchWF pb.batch pid ep (if pid < 0 then 0 else pb.seq)) ∧ PartsWF pid ep ps
+
+theorem R_parts (crc crc32 : Bytes → Nat) (hcrc : ∀ x, crc x < 4294967296) (v pid ep : Int) (tx : Bool) (hv : 3 ≤ v)
+    (ps : List Model.C18.PartBatch) (rest : Bytes) (h : PartsWF pid ep ps) :
+    R (Spec.C18.repeatP (Spec.C18.partitionP crc crc32 false v) ps.length)
+      (Model.C18.partsAppendTo (env0 crc crc32) v pid ep tx ps) rest (dParts crc v pid ep tx ps) := by
+  induction ps with
+  | nil => simpa [Spec.C18.repeatP, Model.C18.partsAppendTo, dParts] using R_pure ([] : List Spec.C18.DBatch) rest
+  | cons pb ps ih =>
+    intro log
+    have e1 := fun r l => run_of_R (R_partition crc crc32 hcrc pb v pid ep tx r hv h.1.1 h.1.2) l
+    have e2 := fun l => run_of_R (ih h.2) l
+    simp only [dParts] at e2
+    simp [run2, Spec.C18.repeatP, Model.C18.partsAppendTo, e1, e2, dParts]
+    rfl
+
+def dTopic (crc : Bytes → Nat) (v pid ep : Int) (tx : Bool) (t : Model.C18.TopicBatches) : Spec.C18.DTopic :=
+  ⟨if v ≥ 13 then none else some t.topic, if v ≥ 13 then some t.topicID else none, dParts crc v pid ep tx t.parts⟩
+
+structure TopicWF (pid ep : Int) (t : Model.C18.TopicBatches) : Prop where
+  id : t.topicID.length = 16
+  name : t.topic.length < 32768
+  np : t.parts.length < 2147483647
+  parts : PartsWF pid ep t.parts
+
+theorem lenU_le5 (n : Nat) (h : n < 4294967296) : lenU n ≤ 10 :=
+  Nat.le_trans (Proof.C17.lenU_le 5 n (by omega) (by omega)) (by omega)
+
+set_option maxRecDepth 4000 in
+theorem R_topic (crc crc32 : Bytes → Nat) (hcrc : ∀ x, crc x < 4294967296) (v pid ep : Int) (tx : Bool) (hv : 3 ≤ v)
+    (t : Model.C18.TopicBatches) (rest : Bytes) (h : TopicWF pid ep t) :
+    R (Spec.C18.topicP crc crc32 false v) (Model.C18.topicAppendTo (env0 crc crc32) v pid ep tx t) rest (dTopic crc v pid ep tx t) := by
+  intro log
+  have eParts := fun r l => run_of_R (R_parts crc crc32 hcrc v pid ep tx hv t.parts r h.parts) l
+  unfold Model.C18.topicAppendTo
+  by_cases h13 : v ≥ 13
+  · have h9 : v ≥ 9 := by omega
+    have eId := fun r l => run_of_R (R_takeN t.topicID r 16 h.id) l
+    have eN := fun r l => run_of_R (R_uvar (1 + t.parts.length) r (lenU_le5 _ (by have := h.np; omega))) l
+    have eTag := fun r l => run_of_R (R_emptyTags_flex r) l
+    simp only [List.singleton_append] at eTag
+    simp [run2, Spec.C18.topicP, Spec.C18.arrayLenP, h13, h9, Model.C18.compactArrayLen, Model.C18.uvarint, eId, eN, eParts, eTag, dTopic]
+    rfl
+  · by_cases h9 : v ≥ 9
+    · have eS := fun r l => run_of_R (R_uvar (1 + t.topic.length) r (lenU_le5 _ (by have := h.name; omega))) l
+      have eName := fun r l => run_of_R (R_takeN t.topic r t.topic.length rfl) l
+      have eN := fun r l => run_of_R (R_uvar (1 + t.parts.length) r (lenU_le5 _ (by have := h.np; omega))) l
+      have eTag := fun r l => run_of_R (R_emptyTags_flex r) l
+      simp only [List.singleton_append] at eTag
+      simp [run2, Spec.C18.topicP, Spec.C18.arrayLenP, Spec.C18.stringP, h13, h9, Model.C18.compactArrayLen, Model.C18.compactString,
+        Model.C18.uvarint, eS, eName, eN, eParts, eTag, dTopic]
+      rfl
+    · have eS := fun r l => run_of_R (R_i16 (t.topic.length : Int) r (by have := h.name; unfold I16; omega)) l
+      have eName := fun r l => run_of_R (R_takeN t.topic r t.topic.length rfl) l
+      have eN := fun r l => run_of_R (R_i32 (t.parts.length : Int) r (by have := h.np; unfold I32; omega)) l
+      have eTag := fun r l => run_of_R (R_emptyTags_nonflex r) l
+      simp only [List.nil_append] at eTag
+      have hs0 : ¬ ((t.topic.length : Int) < 0) := by omega
+      have hn0 : ¬ ((t.parts.length : Int) < 0) := by omega
+      simp [run2, Spec.C18.topicP, Spec.C18.arrayLenP, Spec.C18.stringP, h13, h9, Model.C18.arrayLen, Model.C18.string16,
+        eS, eName, eN, hs0, hn0, eParts, eTag, dTopic]
+      rfl
+
+theorem R_topics (crc crc32 : Bytes → Nat) (hcrc : ∀ x, crc x < 4294967296) (v pid ep : Int) (tx : Bool) (hv : 3 ≤ v)
+    (ts : List Model.C18.TopicBatches) (rest : Bytes) (h : ∀ t ∈ ts, TopicWF pid ep t) :
+    R (Spec.C18.repeatP (Spec.C18.topicP crc crc32 false v) ts.length)
+      (Model.C18.topicsAppendTo (env0 crc crc32) v pid ep tx ts) rest (ts.map (dTopic crc v pid ep tx)) := by
+  induction ts with
+  | nil => simpa [Spec.C18.repeatP, Model.C18.topicsAppendTo] using R_pure ([] : List Spec.C18.DTopic) rest
+  | cons t ts ih =>
+    intro log
+    have e1 := fun r l => run_of_R (R_topic crc crc32 hcrc v pid ep tx hv t r (h t (List.mem_cons_self ..))) l
+    have e2 := fun l => run_of_R (ih (fun x hx => h x (List.mem_cons_of_mem _ hx))) l
+    simp [run2, Spec.C18.repeatP, Model.C18.topicsAppendTo, e1, e2]
+    rfl
+
+theorem R_nullableString16 (s : Option Bytes) (rest : Bytes) (h : Model.C18.blen s < 32768) :
+    R (Spec.C18.nullableStringP false) (Model.C18.nullableString s) rest s := by
+  intro log
+  cases s with
+  | none =>
+    have e := fun r l => run_of_R (R_i16 (-1) r (by unfold I16; omega)) l
+    simp [run2, Spec.C18.nullableStringP, Model.C18.nullableString, e]
+    rfl
+  | some x =>
+    simp only [Model.C18.blen] at h
+    have e := fun r l => run_of_R (R_i16 (x.length : Int) r (by unfold I16; omega)) l
+    have eT := fun r l => run_of_R (R_takeN x r x.length rfl) l
+    have h0 : ¬ ((x.length : Int) < 0) := by omega
+    simp [run2, Spec.C18.nullableStringP, Model.C18.nullableString, Model.C18.string16, e, eT, h0]
+    rfl
+
+theorem R_compactNullableString (s : Option Bytes) (rest : Bytes) (h : Model.C18.blen s < 32768) :
+    R (Spec.C18.nullableStringP true) (Model.C18.compactNullableString s) rest s := by
+  intro log
+  cases s with
+  | none =>
+    have e := fun r l => run_of_R (R_uvar 0 r (lenU_le5 _ (by omega))) l
+    simp [run2, Spec.C18.nullableStringP, Model.C18.compactNullableString, Model.C18.uvarint, e]
+    rfl
+  | some x =>
+    simp only [Model.C18.blen] at h
+    have e := fun r l => run_of_R (R_uvar (1 + x.length) r (lenU_le5 _ (by omega))) l
+    have eT := fun r l => run_of_R (R_takeN x r x.length rfl) l
+    simp [run2, Spec.C18.nullableStringP, Model.C18.compactNullableString, Model.C18.compactString, Model.C18.uvarint, e, eT]
+    rfl
+
+/-- a frame after its size field, as `AppendRequest` writes it -/
+def restOf (e : Model.C18.Env) (c : Model.C18.Cfg) (v corr pid ep : Int) (ts : List Model.C18.TopicBatches) : Bytes :=
+  Model.C18.beI 2 0 ++ Model.C18.beI 2 v ++ Model.C18.beI 4 corr ++ Model.C18.nullableString c.clientId
+    ++ (if v ≥ 9 then [0#8] else []) ++ Model.C18.requestAppendTo e c v pid ep ts
+
+theorem appendRequest_eq (e : Model.C18.Env) (c : Model.C18.Cfg) (v corr pid ep : Int) (ts : List Model.C18.TopicBatches) :
+    Model.C18.appendRequest e c v corr pid ep ts = Model.C18.beI 4 ((restOf e c v corr pid ep ts).length : Int) ++ restOf e c v corr pid ep ts := rfl
+
+def dReq (crc : Bytes → Nat) (frameLen : Nat) (c : Model.C18.Cfg) (v corr pid ep : Int) (ts : List Model.C18.TopicBatches) : Spec.C18.DReq :=
+  ⟨frameLen, v, corr, c.clientId, c.txnId, c.acks, c.timeoutMs, ts.map (dTopic crc v pid ep c.txnId.isSome)⟩
+
+structure ReqWF (c : Model.C18.Cfg) (v corr pid ep : Int) (ts : List Model.C18.TopicBatches) : Prop where
+  v3 : 3 ≤ v
+  v13 : v ≤ 13
+  corr : I32 corr
+  cid : Model.C18.blen c.clientId < 32768
+  txn : Model.C18.blen c.txnId < 32768
+  acks : I16 c.acks
+  timeout : I32 c.timeoutMs
+  nt : ts.length < 2147483647
+  topics : ∀ t ∈ ts, TopicWF pid ep t
+
+set_option maxRecDepth 4000 in
+theorem R_requestTail (crc crc32 : Bytes → Nat) (hcrc : ∀ x, crc x < 4294967296) (c : Model.C18.Cfg) (v corr pid ep : Int)
+    (ts : List Model.C18.TopicBatches) (frameLen : Nat) (h : ReqWF c v corr pid ep ts) :
+    R (Spec.C18.requestTail crc crc32 false frameLen) (restOf (env0 crc crc32) c v corr pid ep ts) [] (dReq crc frameLen c v corr pid ep ts) := by
+  intro log
+  have hv3 := h.v3
+  have hv13 := h.v13
+  have eKey := fun r l => run_of_R (R_i16 0 r (by unfold I16; omega)) l
+  have eVer := fun r l => run_of_R (R_i16 v r (by unfold I16; omega)) l
+  have eCorr := fun r l => run_of_R (R_i32 corr r h.corr) l
+  have eCid := fun r l => run_of_R (R_nullableString16 c.clientId r h.cid) l
+  have eAcks := fun r l => run_of_R (R_i16 c.acks r h.acks) l
+  have eTo := fun r l => run_of_R (R_i32 c.timeoutMs r h.timeout) l
+  have eTopics := fun r l => run_of_R (R_topics crc crc32 hcrc v pid ep c.txnId.isSome hv3 ts r h.topics) l
+  have hv0 : ¬ v < 0 := by omega
+  have hv13' : ¬ v > 13 := by omega
+  have hv3' : v ≥ 3 := hv3
+  by_cases h9 : v ≥ 9
+  · have eTag := fun r l => run_of_R (R_emptyTags_flex r) l
+    simp only [List.singleton_append] at eTag
+    have eTag0 := fun l => eTag [] l
+    have eTxn := fun r l => run_of_R (R_compactNullableString c.txnId r h.txn) l
+    have eN := fun r l => run_of_R (R_uvar (1 + ts.length) r (lenU_le5 _ (by have := h.nt; omega))) l
+    simp [run2, Spec.C18.requestTail, restOf, Model.C18.requestAppendTo, Spec.C18.arrayLenP, h9, hv0, hv13', hv3',
+      Model.C18.compactArrayLen, Model.C18.uvarint, eKey, eVer, eCorr, eCid, eTag, eTag0, eTxn, eAcks, eTo, eN, eTopics, dReq]
+    rfl
+  · have eTag := fun r l => run_of_R (R_emptyTags_nonflex r) l
+    simp only [List.nil_append] at eTag
+    have eTxn := fun r l => run_of_R (R_nullableString16 c.txnId r h.txn) l
+    have eN := fun r l => run_of_R (R_i32 (ts.length : Int) r (by have := h.nt; unfold I32; omega)) l
+    have hn0 : ¬ ((ts.length : Int) < 0) := by omega
+    have eTopics0 := fun l => eTopics [] l
+    simp only [List.append_nil] at eTopics0
+    simp [run2, Spec.C18.requestTail, restOf, Model.C18.requestAppendTo, Spec.C18.arrayLenP, h9, hv0, hv13', hv3',
+      Model.C18.arrayLen, eKey, eVer, eCorr, eCid, eTag, eTxn, eAcks, eTo, eN, hn0, eTopics, eTopics0, dReq]
+    rfl
+
+/-- **Request round trip** (Produce v3–v13, no compressor): the reference decoder reads back from the frame
+`AppendRequest` writes the request header, ids, acks, timeout and, per topic and partition in the written order,
+the batches with their buffered records. -/
+theorem R_request (crc crc32 : Bytes → Nat) (hcrc : ∀ x, crc x < 4294967296) (c : Model.C18.Cfg) (v corr pid ep : Int)
+    (ts : List Model.C18.TopicBatches) (st : Bytes) (h : ReqWF c v corr pid ep ts)
+    (hlen : (Model.C18.appendRequest (env0 crc crc32) c v corr pid ep ts).length < 2147483648) :
+    R (Spec.C18.requestP crc crc32 false (Model.C18.appendRequest (env0 crc crc32) c v corr pid ep ts)) [] st
+      (dReq crc (Model.C18.appendRequest (env0 crc crc32) c v corr pid ep ts).length c v corr pid ep ts) := by
+  unfold Spec.C18.requestP
+  apply R_within
+  intro log
+  have hl : (restOf (env0 crc crc32) c v corr pid ep ts).length < 2147483648 := by
+    rw [appendRequest_eq] at hlen; simp at hlen; omega
+  have eSize := fun r l => run_of_R (R_i32 ((restOf (env0 crc crc32) c v corr pid ep ts).length : Int) r (by unfold I32; omega)) l
+  have eTail := fun bl l => run_of_R (R_requestTail crc crc32 hcrc c v corr pid ep ts bl h) l
+  simp only [List.append_nil] at eTail
+  rw [appendRequest_eq]
+  simp [run2, eSize, eTail]
+
 end Proof.C18RT
